@@ -43,7 +43,7 @@ func viewsConcurrentScenario(c *sup.Ctx, r *rng.R) {
 	final := map[string]int64{} // key -> n of the live document (absent = deleted)
 	var wg sync.WaitGroup
 	stop := make(chan struct{})
-	writers := 2 + r.Intn(2)
+	writers := 2 + r.Intn(6)
 	opsEach := 25 + r.Intn(25)
 	var viewErrs, viewCalls, ddocCalls atomic.Int64
 	for w := 0; w < writers; w++ {
@@ -54,7 +54,9 @@ func viewsConcurrentScenario(c *sup.Ctx, r *rng.R) {
 			col := b.Colls[w%len(b.Colls)]
 			for i := 0; i < opsEach; i++ {
 				key := fmt.Sprintf("w%d_%d", w, wr.Intn(5)) // every writer owns its keys: the last acknowledged write is the final one
-				if wr.Intn(5) == 0 {
+				if w%2 == 1 {
+					key = fmt.Sprintf("w%d_once%d", w, i) // every other writer creates documents that are never written again
+				} else if wr.Intn(5) == 0 {
 					if err := col.Delete(key); err == nil {
 						mu.Lock()
 						delete(final, key)
